@@ -114,7 +114,7 @@ fn apply<const L: usize>(book: &mut OrderBook<L>, op: &Op) -> Outcome {
             book.reset_trade_vol();
             Outcome::Unit
         }
-        Op::Reload(_) => Outcome::Unit,
+        Op::Reload(_) | Op::Jump(_) => Outcome::Unit,
     }
 }
 
@@ -153,6 +153,20 @@ impl<const L: usize> Live<L> {
                 // the snapshot file is deliberately left in place: the next save overwrites it
                 OrderBook::<L>::load_json(&path).map_err(|e| e.to_string())?
             }
+            m if m.starts_with("shift:") => {
+                let k: u64 = m[6..].parse().map_err(|_| "bad shift".to_string())?;
+                let mut v = serde_json::to_value(&self.book).map_err(|e| e.to_string())?;
+                let bump = |x: &mut serde_json::Value| -> Result<(), String> {
+                    let n = x.as_u64().ok_or("stamp is not a u64")?;
+                    *x = serde_json::Value::from(n.checked_add(k).ok_or("stamp overflow")?);
+                    Ok(())
+                };
+                bump(v.get_mut("queue_stamp").ok_or("no queue_stamp")?)?;
+                for o in v.get_mut("orders").and_then(|o| o.as_array_mut()).ok_or("no orders")? {
+                    bump(o.get_mut("key").and_then(|k| k.get_mut(2)).ok_or("no key")?)?;
+                }
+                serde_json::from_value(v).map_err(|e| e.to_string())?
+            }
             _ => return Err("bad mode".into()),
         };
         let old = std::mem::replace(&mut self.book, reloaded);
@@ -170,7 +184,8 @@ impl<const L: usize> Live<L> {
             _ => self.trading,
         };
         let mut sh = "ok".to_string();
-        let out = if let Op::Reload(mode) = op {
+        let jump_mode = if let Op::Jump(k) = op { Some(format!("shift:{}", k)) } else { None };
+        let out = if let Some(mode) = match op { Op::Reload(m) => Some(m), Op::Jump(_) => jump_mode.as_ref(), _ => None } {
             match catch_unwind(AssertUnwindSafe(|| self.reload(mode))) {
                 Ok(Ok(())) => Outcome::Unit,
                 Ok(Err(e)) => {
@@ -199,7 +214,7 @@ impl<const L: usize> Live<L> {
             }
         };
         // lock-step shadows
-        if !matches!(op, Op::Reload(_)) {
+        if !matches!(op, Op::Reload(_) | Op::Jump(_)) {
             let trading = self.trading;
             let mut diverged = false;
             for s in self.shadows.iter_mut() {
